@@ -993,6 +993,31 @@ func runTimer(tc timerCase) (f *fail) {
 				return &fail{name + "/live-peer-expired", fmt.Sprintf("session of a peer whose silences are all shorter than the timeout was closed after activity %d (gap %v of %v) (%+v)", i+1, gap, limit, tc)}
 			}
 		}
+	case "live-just-under-timeout":
+		// every silence is 150 ms shorter than the relevant timeout, and the activities do not fall on whole
+		// seconds of the clock (first one 950 ms after the session started streaming)
+		act := func() *fail {
+			if record || udp {
+				return sendMedia()
+			}
+			return keepalive()
+		}
+		env.Advance(950 * time.Millisecond)
+		if ff := act(); ff != nil {
+			return ff
+		}
+		for i := 0; i < 6; i++ {
+			env.Advance(timeout - 150*time.Millisecond)
+			if closed() {
+				return &fail{name + "/live-peer-expired", fmt.Sprintf("session of a peer whose silences are all 150 ms shorter than the timeout %v was closed during silence %d (%+v)", timeout, i+1, tc)}
+			}
+			if ff := act(); ff != nil {
+				if closed() {
+					return &fail{name + "/live-peer-expired", fmt.Sprintf("session of a peer whose silences are all 150 ms shorter than the timeout %v was closed after silence %d (%+v)", timeout, i+1, tc)}
+				}
+				return ff
+			}
+		}
 	case "silent":
 		if os.Getenv("C02_DEBUG") != "" {
 			for i := 0; i < 9; i++ {
@@ -1051,7 +1076,7 @@ func main() {
 		})
 	}
 	run := evid.New("C02", "model_checking")
-	run.Rule("state = canonical key (state of the addressed session per the reference machine, its set-up medias, transport and announced media count, whether the connection is bound to it, whether the known id is still valid, number of live sessions) reached by the shortest request history; transition = that history replayed on a fresh real server plus one request from the alphabet (18 requests + 5 of them refused by the application's handler with 461 and no error, x Session header {right, absent, wrong}); BFS to depth 4 (quick) / 6 (thorough) per configuration (handler subsets {all, norecord, nopause, describeonly} x UDP {off,on}); every trace runs on the implementation. non-trivial = history of length >= 2; plus a TCP reader that stops reading (server's writer blocked in a socket write) and then sends one of {PAUSE, GET_PARAMETER, TEARDOWN, PLAY, SETUP, OPTIONS, RECORD}: the session must end exactly once and the connection be closed within 2 x WriteTimeout + IdleTimeout + ReadTimeout + a check period; plus the timer grid {tcp-play, udp-play, udp-record, tcp-record} x {live at a regular period, live at irregular intervals (gaps 0.3..0.9 of the timeout), silent} x (IdleTimeout, ReadTimeout) in {(6,2),(10,10),(60,10)} s under virtual time")
+	run.Rule("state = canonical key (state of the addressed session per the reference machine, its set-up medias, transport and announced media count, whether the connection is bound to it, whether the known id is still valid, number of live sessions) reached by the shortest request history; transition = that history replayed on a fresh real server plus one request from the alphabet (18 requests + 5 of them refused by the application's handler with 461 and no error, x Session header {right, absent, wrong}); BFS to depth 4 (quick) / 6 (thorough) per configuration (handler subsets {all, norecord, nopause, describeonly} x UDP {off,on}); every trace runs on the implementation. non-trivial = history of length >= 2; plus a TCP reader that stops reading (server's writer blocked in a socket write) and then sends one of {PAUSE, GET_PARAMETER, TEARDOWN, PLAY, SETUP, OPTIONS, RECORD}: the session must end exactly once and the connection be closed within 2 x WriteTimeout + IdleTimeout + ReadTimeout + a check period; plus the timer grid {tcp-play, udp-play, udp-record, tcp-record} x {live at a regular period, live at irregular intervals (gaps 0.3..0.9 of the timeout), live with every silence 150 ms shorter than the timeout and activities off the whole seconds of the clock, silent} x (IdleTimeout, ReadTimeout) in {(6,2),(10,10),(60,10)} s under virtual time")
 	run.Assume("reference machine = DESIGN.md Appendix A: L cells must succeed (<400) with the stated next state, I cells must fail (>=400) with the state unchanged, E cells may do either but consistently; the status code itself is never prescribed")
 	run.Assume("connection liveness after each response is observed with an OPTIONS probe (deterministic: the server handles one request at a time and closes right after a response produced together with an error); a connection closed after a response < 400 is a violation")
 	run.Assume("a session must end when its last connection goes away unless it streams (play/record) over UDP; the harness keeps one live connection at a time")
@@ -1198,7 +1223,7 @@ func main() {
 	var tjobs []any
 	var tcs []timerCase
 	for _, sc := range []string{"tcp-play", "udp-play", "udp-record", "tcp-record"} {
-		for _, p := range []string{"live", "live-irregular", "silent"} {
+		for _, p := range []string{"live", "live-irregular", "live-just-under-timeout", "silent"} {
 			for _, t := range [][2]int{{6, 2}, {10, 10}, {60, 10}} {
 				tc := timerCase{Scenario: sc, Peer: p, Idle: t[0], Read: t[1]}
 				tcs = append(tcs, tc)
